@@ -82,9 +82,11 @@ impl Terminal for RecTerm {
 
 // ------------------------------------------------------------------ alphabet
 
-pub const KIND_NAMES: [&str; 12] = [
+pub const KIND_NAMES: [&str; 14] = [
     "blank", "a", "a/red", "blank/red", "blank/underline", "wide", "wide/red", "img1x1", "img1x2", "img1x1'", "glyph1x2", "img2x1",
+    "glyph1x2/underline", "glyphB1x1",
 ];
+
 
 pub struct Alphabet {
     cells: Vec<Cell>,
@@ -117,6 +119,16 @@ impl Alphabet {
             None,
         );
         let under = Face::new(None, None, FaceAttrs::UNDERLINE);
+        // a second glyph (other size and fallback), and the first glyph under another face: what the terminal is
+        // asked to show for a glyph depends on the glyph AND the face it is drawn with
+        let glyph_b = Glyph::new(
+            surf_n_term::rasterize::Path::empty(),
+            Default::default(),
+            None,
+            Size::new(1, 1),
+            "h".to_owned(),
+            None,
+        );
         let ptrs = vec![
             (7, i1.data().as_ptr() as usize),
             (8, i2.data().as_ptr() as usize),
@@ -134,8 +146,10 @@ impl Alphabet {
             Cell::new_image(i1),
             Cell::new_image(i2),
             Cell::new_image(i1b),
-            Cell::new_glyph(red(), glyph),
+            Cell::new_glyph(red(), glyph.clone()),
             Cell::new_image(i3),
+            Cell::new_glyph(under, glyph),
+            Cell::new_glyph(red(), glyph_b),
         ];
         Alphabet { cells, ptrs }
     }
@@ -147,8 +161,8 @@ impl Alphabet {
     /// (height, width) in cells of the area an image-like kind covers
     fn area(kind: usize) -> Option<(usize, usize)> {
         match kind {
-            7 | 9 => Some((1, 1)),
-            8 | 10 => Some((1, 2)),
+            7 | 9 | 13 => Some((1, 1)),
+            8 | 10 | 12 => Some((1, 2)),
             11 => Some((2, 1)),
             _ => None,
         }
@@ -335,11 +349,14 @@ pub fn direct(alpha: &Alphabet, g: &Grid, surf: &[u8]) -> Option<Screen> {
                         };
                     }
                 }
-                if let CellKind::Image(img) = cell.kind() {
-                    s.placements.push((img_id(img), Position::new(r, c)));
-                } else {
-                    // glyph: the image is produced by the renderer; compare only its presence
-                    s.placements.push((crate::model::screen::ImgId { hash: 0, height: 0, width: 0 }, Position::new(r, c)));
+                match cell.kind() {
+                    CellKind::Image(img) => s.placements.push((img_id(img), Position::new(r, c))),
+                    CellKind::Glyph(glyph) => {
+                        // what a glyph looks like is a function of the glyph, the face and the cell size in pixels
+                        let size = RecTerm::new(g.h, g.w).size;
+                        s.placements.push((img_id(&glyph.rasterize(cell.face(), size)), Position::new(r, c)));
+                    }
+                    _ => {}
                 }
             } else if let CellKind::Char(ch) = cell.kind() {
                 covered[r * g.w + c] = true;
@@ -477,18 +494,8 @@ fn step(alpha: &Alphabet, g: &Grid, surfs: &[Vec<u8>], hist: &[Op], with_images:
         }
         if hist.len() == 1 {
             // absolute oracle on the from-scratch path
-            if let Some(mut d) = direct(alpha, g, surf) {
-                let mut sc = scratch.clone();
-                // glyph images are produced by the renderer: compare presence and position only
-                for s in [&mut d, &mut sc] {
-                    for p in s.placements.iter_mut() {
-                        let glyph_pos = (0..g.h * g.w).any(|i| surf[i] == 10 && Position::new(i / g.w, i % g.w) == p.1);
-                        if glyph_pos {
-                            p.0 = crate::model::screen::ImgId { hash: 0, height: 0, width: 0 };
-                        }
-                    }
-                    s.placements.sort();
-                }
+            if let Some(d) = direct(alpha, g, surf) {
+                let sc = scratch.clone();
                 if let Some((class, detail)) = diff_class(&d, &sc) {
                     problems.push((
                         format!("F:repaint-differs-from-surface:{class}"),
@@ -591,6 +598,7 @@ pub fn grids(tier: Tier) -> Vec<(Grid, usize, bool)> {
             (g(1, 4, &seven), 6, false),
             (g(2, 2, &vec![0, 1, 3, 6, 7, 8, 11]), 6, false),
             (g(1, 6, &long), 6, false),
+            (g(1, 3, &vec![0, 1, 7, 10, 12, 13]), 6, true),
         ],
         Tier::Thorough => vec![
             (g(1, 1, &all), 8, true),
@@ -601,6 +609,8 @@ pub fn grids(tier: Tier) -> Vec<(Grid, usize, bool)> {
             (g(2, 3, &vec![0, 1, 6, 8, 11]), 8, false),
             (g(1, 6, &long), 8, true),
             (g(1, 7, &long), 8, false),
+            (g(1, 4, &vec![0, 1, 7, 10, 12, 13]), 8, true),
+            (g(2, 2, &vec![0, 1, 10, 12, 13]), 8, false),
         ],
     }
 }
@@ -647,7 +657,7 @@ pub fn run(ctx: &Ctx) -> Result<Report, String> {
         .set("samples", samples.into_vec());
     r.assume("VT semantics of model/screen.rs (xterm/ECMA-48/kitty): ECH erases with the current background only; overwriting half of a wide character blanks the other half keeping its rendition");
     r.assume("display width as defined by unicode-width (the library's own definition)");
-    r.assume("grids up to the listed sizes and the 11 cell kinds; every transition is a real TerminalRenderer::frame call");
+    r.assume("grids up to the listed sizes and the 14 cell kinds; every transition is a real TerminalRenderer::frame call");
     r.violations = viol.into_vec();
     Ok(r)
 }
@@ -656,7 +666,7 @@ pub fn replay(w: &Value) -> Result<(bool, String), String> {
     let alpha = Alphabet::new();
     let gh = w["grid"][0].as_u64().ok_or("grid")? as usize;
     let gw = w["grid"][1].as_u64().ok_or("grid")? as usize;
-    let g = Grid { h: gh, w: gw, kinds: (0..12).collect() };
+    let g = Grid { h: gh, w: gw, kinds: (0..KIND_NAMES.len()).collect() };
     let mut surfs: Vec<Vec<u8>> = vec![];
     let mut hist: Vec<Op> = vec![];
     let parse_surface = |v: &Value| -> Result<Vec<u8>, String> {
